@@ -1,4 +1,5 @@
 """C06 — session state carries over between requests exactly, never after it ended."""
+import glob
 import os
 import verif
 from verif import Unit, rc_params
@@ -20,10 +21,14 @@ LEVEL_TEXT = ("Each case draws a configuration (location client/server/both x st
 LEVEL_NOTE = ("The model encodes the documented rules plus three readings of undocumented corners (reset_session() starts a new "
               "fixed period; age/expiration/on_server set earlier in a request stay in force for that request's save after clear(); "
               "a session holding only attributes is a session). expose()/hide() of unset keys and on_server(true) with "
-              "location=client are not generated. Exactly at now == deadline and exactly at the 10 % threshold either answer is "
-              "accepted. Deadlines stay below 2^31 (the network storage protocol carries the deadline through an int). Cookie "
-              "authenticity is C05's subject: only one tampered-cookie family is replayed here. Concurrency of requests is not "
-              "explored (one request at a time).")
+              "location=client are not generated (counted as excluded). Exactly at now == deadline and exactly at the 10 % threshold "
+              "either answer is accepted. Deadlines stay below 2^31 (the network storage protocol carries the deadline through an "
+              "int). Cookie authenticity is C05's subject: only one tampered-cookie family is replayed here. Requests are executed "
+              "one at a time (no concurrency). Network-storage pools are shared by the cases of one process and restricted to 216 "
+              "configurations (every tcp_storage pins a pthread key for the life of the thread). Memory and network storage are "
+              "observed through a spy session_storage (for memory also unobserved through a cppcms::service), the file storage "
+              "also through its directory and decoy files. A watchdog ends a process that makes no progress for 300 s (a hang alone "
+              "is inconclusive, never a violation).")
 DESIGN_REF = "3/C06"
 RULE = ("evaluations = histories executed (class 'requests' counts the oracle-checked requests). Non-trivial = the history contains "
         "a request that read a non-empty session written by an earlier request after the clock advanced, or a write that moved a "
@@ -35,38 +40,28 @@ def specs():
     return [dict(name="c06_sessions", srcs="c06_sessions.cpp", cfg="asan", rapidcheck=True, wraps=["time"])]
 
 
-QUICK = dict(local=10, net=4, cases=2500, net_cases=1500, maxlen=30)
-THOROUGH = dict(local=12, net=4, cases=60000, net_cases=30000, maxlen=60)
-
-KNOWN_SIG = "exposed:cookie-not-refreshed-when-session-prolonged"
-REGRESS = os.path.join(verif.VERIF, "replays", ID, "known-exposed-cookie-outlived-by-session.case")
-
-
-def known_listed():
-    return any(verif.sig_match(k.get("signature", ""), KNOWN_SIG) for k in verif.load_known(ID))
-
+QUICK = dict(local=6, net=2, cases=10000, net_cases=10000, maxlen=30)
+THOROUGH = dict(local=12, net=4, cases=50000, net_cases=40000, maxlen=60)
 
 def units(bins, tier, seed):
     b = bins["c06_sessions"]
     p = QUICK if tier == "quick" else THOROUGH
-    inc = os.environ.get("C06_INCLUDE_KNOWN", "")
     us = []
     for i in range(p["local"]):
         us.append(Unit("c06_sessions.rc%d" % i, [b], env={"RC_PARAMS": rc_params(seed * 1000 + i, p["cases"], p["maxlen"]), "C06_MAXLEN": p["maxlen"],
-                                                           "C06_STORAGE": "local", "C06_INCLUDE_KNOWN": inc}, group="histories", timeout=3000))
+                                                           "C06_STORAGE": "local"}, group="histories", timeout=1500 if tier == "quick" else 6000))
     for i in range(p["net"]):
         us.append(Unit("c06_sessions.net%d" % i, [b], env={"RC_PARAMS": rc_params(seed * 1000 + 100 + i, p["net_cases"], p["maxlen"]), "C06_MAXLEN": p["maxlen"],
-                                                            "C06_STORAGE": "network", "C06_INCLUDE_KNOWN": inc}, group="histories-network", timeout=3000))
-    # the regression case of the reported defect runs as soon as known_findings.json lists its signature (known: reported, exit 0;
-    # fixed: must pass) or when C06_INCLUDE_KNOWN is set (verification of the proposed patch)
-    if (known_listed() or inc) and os.path.exists(REGRESS):
-        us.append(Unit("c06_sessions.regress", [b, "--regress", REGRESS], group="regress"))
+                                                            "C06_STORAGE": "network"}, group="histories-network", timeout=1500 if tier == "quick" else 6000))
+    # hand-kept regression cases (the defect fixed by 02b1ca1 must stay fixed); failures keep the signature of the defect
+    for j, case in enumerate(sorted(glob.glob(os.path.join(verif.VERIF, "replays", ID, "known-*.case")))):
+        us.append(Unit("c06_sessions.regress%d" % j, [b, "--regress", case], group="regress"))
     return us
 
 
 def floor(tier):
     p = QUICK if tier == "quick" else THOROUGH
-    return {"histories": p["local"] * p["cases"], "histories-network": p["net"] * p["net_cases"]}
+    return {"histories": p["local"] * p["cases"], "histories-network": p["net"] * p["net_cases"], "regress": 1}
 
 
 def run(tier, seed):
@@ -106,8 +101,11 @@ MUTATIONS = [
     dict(name="fixed-deadline-moves-on-write", edits=[("src/session_interface.cpp", "\tif(how_==browser || how_==renew || (how_==fixed && new_session_))", "\tif(how_==browser || how_==renew || how_==fixed)")]),
     # own: cookie of an existing fixed session gets the full period again (cookie outlives the session)
     dict(name="fixed-cookie-age-full-period", edits=[("src/session_interface.cpp", "\tif(how_==renew || ( how_==fixed && new_session_ ))", "\tif(how_==renew || how_==fixed)")]),
-    # own: a changed value of an exposed key is not sent again
-    dict(name="exposed-changed-value-not-resent", edits=[("src/session_interface.cpp", "|| !p2->second.exposed || p->second.value!=p2->second.value)){", "|| !p2->second.exposed)){")]),
+    # regression of the defect fixed by 02b1ca1: cookies of exposed keys are sent only when the key changed
+    dict(name="exposed-cookies-only-sent-on-change-regression", edits=[("src/session_interface.cpp", "\t\tif(p->second.exposed) {\n\t\t\tset_session_cookie(cookie_age(),p->second.value,p->first);",
+          "\t\tif(p->second.exposed && (force || p2==data_copy_.end() || !p2->second.exposed || p->second.value!=p2->second.value)){\n\t\t\tset_session_cookie(cookie_age(),p->second.value,p->first);")]),
+    # own: the cookie of an exposed key gets the full period instead of the session cookie's remaining life time
+    dict(name="exposed-cookie-age-full-period", edits=[("src/session_interface.cpp", "\t\t\tset_session_cookie(cookie_age(),p->second.value,p->first);", "\t\t\tset_session_cookie(how_==browser ? 0 : timeout_val_,p->second.value,p->first);")]),
     # own: off-by-one in the bounds check of the packed format (last entry)
     dict(name="load-data-bound-off-by-one", edits=[("src/session_interface.cpp", "\t\tif(end - begin >= int(p.key_size + p.data_size)) {", "\t\tif(end - begin > int(p.key_size + p.data_size)) {")]),
     # own: file storage does not delete
